@@ -377,6 +377,50 @@ func execModes(line string) (res h.Result) {
 				alive = false
 			}
 		}
+		// `ZN <op>` / `QN <op>`: Suspend / Fini during which the application makes the call <op> (ME f | MD | PE | PD | FE | FD)
+		// — it lands after the library has stopped its loops and before it restores the terminal (from the tty's
+		// NotifyResize(nil) callback; the library holds no screen lock there).  Same history as `Z ; <op>` for the model.
+		if (kind == "ZN" || kind == "QN") && len(t) >= 2 {
+			inner := t[1:]
+			tags["call-during-"+map[string]string{"ZN": "suspend", "QN": "fini"}[kind]] = true
+			tty.OnUnnotify = func() {
+				switch inner[0] {
+				case "ME":
+					if len(inner) > 1 {
+						scr.EnableMouse(tcell.MouseFlags(h.Atoi(inner[1])))
+					}
+				case "MD":
+					scr.DisableMouse()
+				case "PE":
+					scr.EnablePaste()
+				case "PD":
+					scr.DisablePaste()
+				case "FE":
+					scr.EnableFocus()
+				case "FD":
+					scr.DisableFocus()
+				}
+			}
+			if !sh.finished && !suspended { // otherwise the callback never runs: nothing changes
+				switch inner[0] {
+				case "ME":
+					if len(inner) > 1 {
+						sh.mouse = h.Atoi(inner[1])
+					}
+				case "MD":
+					sh.mouse = 0
+				case "PE":
+					sh.paste = true
+				case "PD":
+					sh.paste = false
+				case "FE":
+					sh.focus = true
+				case "FD":
+					sh.focus = false
+				}
+			}
+			kind = kind[:1]
+		}
 		switch kind {
 		case "ME":
 			fl := h.Atoi(t[1])
@@ -463,6 +507,7 @@ func execModes(line string) (res h.Result) {
 		if !alive {
 			break
 		}
+		tty.OnUnnotify = nil
 		take(tag, kind)
 		switch kind {
 		case "Z":
@@ -503,6 +548,11 @@ func execModes(line string) (res h.Result) {
 
 var modesTitles = []string{"t", "tcell demo", "vi /etc/passwd", "café 世界", "a;b", "100%", ""}
 
+// innerCall: the call an application goroutine makes while a Suspend / Fini is in progress (ops ZN / QN)
+func innerCall(r *h.Rand) string {
+	return h.Pick(r, []string{"FD", "FD", "FE", "MD", "PD", "PE", fmt.Sprintf("ME %d", h.Pick(r, []int{1, 3, 7}))})
+}
+
 func genModes(g *h.Gen) {
 	r := g.R
 	ents := ecmaEntries()
@@ -532,6 +582,8 @@ func genModes(g *h.Gen) {
 			ops = append(ops, fitOps(name, cols)...)
 			g.Emit("modes %s%s 0 %d 4 2 %s", name, drawVariantSuffix(), alt, strings.Join(ops, "; "))
 		}
+		// … and application calls that land while the Suspend / Fini is in progress
+		g.Emit("modes %s%s 0 1 4 2 ME 7; PE; FE; W; ZN FD; R; W; ZN MD; R; FE; ME 3; W; ZN PD; R; W; QN FD", name, drawVariantSuffix())
 	}
 	n := g.N(2400, 45*1500)
 	for i := 0; i < n; i++ {
@@ -591,7 +643,11 @@ func genModes(g *h.Gen) {
 			case k < 75:
 				ops = append(ops, "N")
 			case k < 84:
-				ops = append(ops, "Z")
+				if r.Chance(25) { // an application call lands while the Suspend is in progress
+					ops = append(ops, "ZN "+innerCall(r))
+				} else {
+					ops = append(ops, "Z")
+				}
 			case k < 93:
 				if !finished { // Resume after Fini is outside the property's histories (see lib/props/C04.py)
 					ops = append(ops, "R")
@@ -607,7 +663,11 @@ func genModes(g *h.Gen) {
 				ops = append(ops, fmt.Sprintf("RQ %d %d", r.Range(2, 6), r.Range(1, 3)))
 			}
 		}
-		ops = append(ops, h.Pick(r, []string{"Z", "Q", "Q"}))
+		last := h.Pick(r, []string{"Z", "Q", "Q"})
+		if r.Chance(20) {
+			last += "N " + innerCall(r)
+		}
+		ops = append(ops, last)
 		if r.Chance(25) {
 			ops = append(ops, h.Pick(r, []string{"Q", "Z", "ME 7", "W", "B", "PE"}), h.Pick(r, []string{"Q", "Z"}))
 		}
